@@ -33,6 +33,7 @@ def run(ctx):
     ctx.rule("P9", "ValueState::{map_process, list_flush}: an Increment patch is logged only on the false edge of the doc value's `expose` flag (a counter the view never held gets a put)")
     ctx.rule("P10", "TransactionInner::{local_map_op, local_list_op}: after the op is recorded a put patch can follow (the conflict-resolving put of the unchanged winner clears the view's conflict flag)")
     ctx.rule("P11", "ValueState::{map_process, list_flush}: a bare Conflict patch (flag_conflict) is logged only downstream of a not-`deleted` edge of the doc value and of no `deleted` edge (when the merge deletes what was on display, the newcomer is put)")
+    ctx.rule("P12", "a change of view re-numbers the session's patch log first: PatchLog::finish_current_view calls migrate_actors on every path (not only when events are recorded), and AutoCommit::patch_to logs the new view (DiffIter::log) only after finish_current_view")
     ctx.rule("P2", "C15 R7-pair re-run")
     ctx.rule("P3", "C24 E6 (delete_seq lengths) and E4 (Untangler index steps) re-run")
     f = ctx.facts()
@@ -119,6 +120,7 @@ def run(ctx):
     check_increment_vs_expose(ctx, f)
     check_conflict_resolution_logged(ctx, f)
     check_conflict_vs_deleted(ctx, f)
+    check_view_change_migrates(ctx, f)
     C15.check_expose_pair(ctx, f)
     C24.check_delete_lengths(ctx, f)
     C24.check_untangler_index(ctx, f)
@@ -330,3 +332,29 @@ def check_conflict_vs_deleted(ctx, f):
             ctx.ob("P11", k, ok, t["sp"], "only when the value on display survives the merge" if ok else
                    "a bare Conflict patch is logged without looking at whether this merge deletes the value on display: the view keeps the deleted value, flagged conflicted, while the document shows the newcomer alone")
     ctx.floor("conflict patches in ValueState", n, 3)
+
+
+def check_view_change_migrates(ctx, f):
+    from . import C28
+    FV = [p for p in f.fns if norm_fn(p) == "automerge::patches::patch_log::PatchLog::finish_current_view"]
+    PT = [p for p in f.fns if norm_fn(p) == "automerge::autocommit::AutoCommit::patch_to"]
+    if len(FV) != 1 or len(PT) != 1:
+        raise facts.AnchorMissing("PatchLog::finish_current_view / AutoCommit::patch_to")
+    b = cfg.body(f.fns[FV[0]])
+    ctx.analysed_fns.update([FV[0], PT[0]])
+    mig = [(bi, t) for bi, t in b.calls() if (callee(t) or "").endswith("PatchLog::migrate_actors")]
+    ctx.floor("migrate_actors calls in finish_current_view", len(mig), 1)
+    rets = b.returns()
+    reach = b.reachable(start=0, removed_blocks={bi for bi, _ in mig})
+    ok = bool(mig) and not any(r_ in reach for r_ in rets)
+    ctx.ob("P12", "finish_current_view|actor table brought up to date on every path", ok, (mig[0][1]["sp"] if mig else b.rec["sp"]),
+           "migrate_actors on every path to the return" if ok else
+           "the log's actor table is only brought up to date when events are already recorded: the events of the next view are numbered by the document's current table against a stale one, the next migration shifts them again (index past the actor table in id_to_exid)")
+    pb = cfg.body(f.fns[PT[0]])
+    logs = [(bi, t) for bi, t in pb.calls() if (callee(t) or "").endswith("iter::doc::DiffIter::log")]
+    fins = [bi for bi, t in pb.calls() if (callee(t) or "").endswith("PatchLog::finish_current_view")]
+    ctx.floor("views logged by patch_to", len(logs), 1)
+    for k, (bi, t) in util.ordinal_keys(logs, lambda it: "patch_to|new view logged"):
+        ok2 = any(pb.block_dominates(fb, bi) for fb in fins)
+        ctx.ob("P12", k + "|after finish_current_view", ok2, t["sp"], "the previous view is finished (and the log re-numbered) first" if ok2 else
+               "the new view is logged without finishing the previous one: its events mix with the old view's and are numbered against a stale actor table")
